@@ -928,6 +928,8 @@ class FNode(object):
     @assert_infix_enabled
     def __getitem__(self, idx: Union[int, slice]) -> "FNode":
         if isinstance(idx, slice):
+            if idx.step is not None:
+                raise PysmtValueError("A bit-vector slice cannot have a step")
             end = idx.stop
             start = idx.start
             if start is None: start = 0
